@@ -15,9 +15,14 @@ import z3
 from hlib.vysym import ARITH, FLOAT, PYINT, RAT, Module, Unsupported, V, apply_fn, flatten
 
 warnings.filterwarnings("ignore")
-REPO = sys.argv[1] if len(sys.argv) > 1 else "/repo"
+REPLAY = len(sys.argv) > 1 and sys.argv[1] == "--replay"
+REPO = (sys.argv[2] if REPLAY else sys.argv[1]) if len(sys.argv) > 1 else "/repo"
 sys.path.insert(0, REPO)
 F = fractions.Fraction
+import random as _random
+_r = _random.Random(7)
+HARD = [(F(-79021, 8188), F(-210157, 8795)), (F(7, 2), F(772, 31)), (F(777197), F(1034)), (F(2**53 + 1), F(3)), (F(-7, 2), F(1)), (F(5), F(-3, 2)), (F(3, 2), F(0)), (F(0), F(0)), (F(-1), F(3)), (F(1, 2), F(-1))]
+HARD += [(F(_r.randint(-10**6, 10**6), _r.randint(1, 10**4)), F(_r.randint(-10**6, 10**6), _r.randint(1, 10**4))) for _i in range(150)]
 
 
 def spec(fname, x, y):
@@ -85,13 +90,13 @@ def main():
     from vyxal.context import Context
 
     ctx = Context()
-    mod = Module(os.path.join(REPO, "vyxal", "elements.py"))
+    mod = Module(os.path.join(REPO, "vyxal", "elements.py"), [os.path.join(REPO, "vyxal", "helpers.py")])
     out = {"queries": [], "violations": [], "inconclusive": [], "solver_s": 0.0, "validated": 0, "errors": [], "cvc5": {"agree": 0, "disagree": 0, "timeout_or_unknown": 0}}
     smt_dumps = []
 
     def check(name, solver, a, b, tags, replay_fn):
         t = time.time()
-        solver.set("timeout", 60000)
+        solver.set("timeout", 20000)
         r = str(solver.check())
         dt = time.time() - t
         out["solver_s"] += dt
@@ -108,8 +113,10 @@ def main():
                 fa, fb = frac_of(m, a), frac_of(m, b)
                 if fa is None or fb is None:
                     break
-                for da, db in ((0, 0), (1, 0), (0, 1), (-1, 0), (0, -1), (1, 1), (7, 3), (-5, 2)):
-                    ca, cb = fa + da, fb + db
+                cands = [(fa + da, fb + db) for da, db in ((0, 0), (1, 0), (0, 1), (-1, 0), (0, -1), (1, 1), (7, 3), (-5, 2))]
+                if _ == 0:
+                    cands += HARD
+                for ca, cb in cands:
                     if tags[0] == PYINT and ca.denominator != 1 or tags[1] == PYINT and cb.denominator != 1:
                         continue
                     tried += 1
@@ -252,6 +259,27 @@ def main():
                     mism += 1
                     if mism <= 3:
                         out["errors"].append("translator validation: %s(%s,%s) real %r, encoding %s" % (fname, ca, cb, r, enc[1]))
+    # ---- supplementary, concrete: the real functions against exact Fraction arithmetic on the property's small exhaustive range ----
+    small = sorted({F(p, q) for p in range(-8, 9) for q in (1, 2, 3, 4)})
+    nspec = 0
+    for fname in ARITH:
+        for ca, cb in itertools.product(small, repeat=2):
+            if fname == "modulo" and cb == 0:
+                continue
+            for ta, tb in itertools.product((PYINT, RAT), repeat=2):
+                if (ta == PYINT and ca.denominator != 1) or (tb == PYINT and cb.denominator != 1):
+                    continue
+                nspec += 1
+                try:
+                    r, ok_type, val = real_result(E, ctx, fname, to_operand(ta, ca), to_operand(tb, cb))
+                    bad = (not ok_type) or val != spec_concrete(fname, ca, cb)
+                    why = "%s(%s %s, %s %s) = %r, exact value %s" % (fname, ta, ca, tb, cb, r, spec_concrete(fname, ca, cb))
+                except Exception as e:  # noqa
+                    bad, why = True, "%s(%s %s, %s %s) raised %s" % (fname, ta, ca, tb, cb, type(e).__name__)
+                if bad and len([v for v in out["violations"] if v["query"] == "grid:" + fname]) < 1:
+                    out["violations"].append({"query": "grid:" + fname, "tags": [ta, tb], "a": str(ca), "b": str(cb), "why": why})
+    out["validated"] += nspec
+    out["grid_pairs"] = nspec
     # ---- cvc5 cross-check of every query ----
     cvc5 = "/usr/bin/cvc5"
     if os.path.exists(cvc5):
@@ -278,5 +306,41 @@ def main():
     print(json.dumps(out, ensure_ascii=False))
 
 
+CHAINS = {"a/b*b == a": ("divide", "multiply", True), "(a+b)-b == a": ("add", "subtract", False), "a*b/b == a": ("multiply", "divide", True), "(a-b)+b == a": ("subtract", "add", False)}
+
+
+def replay_main():
+    """python -m hlib.c07_e3 --replay <repo> <query> <tagA> <tagB> <a> <b> : exit 1 if the real functions violate the exact spec"""
+    import vyxal.helpers  # noqa
+    import vyxal.elements as E
+    from vyxal.context import Context
+
+    query, ta, tb, a, b = sys.argv[3:8]
+    ctx = Context()
+    ca, cb = F(a), F(b)
+    query = query[5:] if query.startswith("grid:") else query
+    if query in CHAINS:
+        f1, f2, nz = CHAINS[query]
+        r1 = getattr(E, f1)(to_operand(ta, ca), to_operand(tb, cb), ctx)
+        r, ok_type, val = real_result(E, ctx, f2, r1, to_operand(tb, cb))
+        want = ca
+    else:
+        try:
+            r, ok_type, val = real_result(E, ctx, query, to_operand(ta, ca), to_operand(tb, cb))
+        except Exception as e:  # noqa
+            print("replay: REPRODUCED: %s(%s, %s) raised %s" % (query, ca, cb, type(e).__name__))
+            sys.exit(1)
+        want = spec_concrete(query, ca, cb)
+    print("%s with a=%s (%s) b=%s (%s): real result %r, exact value %s" % (query, ca, ta, cb, tb, r, want))
+    if not ok_type or val != want:
+        print("replay: REPRODUCED")
+        sys.exit(1)
+    print("replay: did not reproduce")
+    sys.exit(0)
+
+
 if __name__ == "__main__":
-    main()
+    if REPLAY:
+        replay_main()
+    else:
+        main()
